@@ -8,10 +8,10 @@ SPEC = {
     'closure_dirs': ['theories/C20', 'theories/Base/Outcome.v'],
     'harness': 'c20',
     'args': {
-        'quick': ['-graphs', 400, '-children', 6],
+        'quick': ['-graphs', 400, '-children', 9],
         'thorough': ['-graphs', 6000, '-children', 24],
     },
-    'search_args': ['-graphs', 3000, '-children', 6],
+    'search_args': ['-graphs', 3000, '-children', 9],
     'assumptions': [
         'value graphs are trees of inline Go values whose pointers/slices/maps are addresses into a heap of cells; pointers target whole cells (no interior pointers: the harness types never take the address of a field)',
         'C20_sound/C20_depth assume that every cycle passes through a pointer to struct/slice/array/map (nopush_wf): cycles through maps, slices, *interface{} or `type P *P` only are outside the property; the model exhausts every budget on them and the implementation overflows the stack / spins (child-process runs)',
